@@ -73,6 +73,10 @@ def callable_name(func: Callable[..., Any]) -> str:
     if isinstance(func, partial):
         func = func.func
 
+    if not hasattr(func, "__qualname__"):
+        # A callable object (an instance of a class with a __call__() method)
+        func = type(func)
+
     if func.__module__ == "builtins":
         return func.__name__
     else:
